@@ -166,6 +166,64 @@ def gen(seed, run, tier='quick'):
             act['expect'] = 'accept'
             decl.apply(model, act)
             decls.append(act)
+    scenario_probes = []
+    if rng.random() < 0.2:
+        # scenario: a *quantized* type with a unit whose scale is off the
+        # quantum grid, and an operation that is delivered either in that
+        # unit (declared first) or in the reference unit (fall-back):
+        # rounding must not depend on which one it is
+        def add(act):
+            decl.apply(model, act)
+            decls.append(act)
+        n = model.fresh()
+        qn, qref = f'T{n}', f'r{n}'
+        add({'a': 'base_type', 'name': qn, 'ref_sym': qref,
+             'quantum': rng.choice(['1/8', '1/100', '1/2', '1/4']),
+             'expect': 'accept'})
+        n = model.fresh()
+        off = rng.choice([{'t': 'dec', 'v': '4.9'}, {'t': 'frac', 'v': '1/3'},
+                          {'t': 'dec', 'v': '2.54'}, {'t': 'frac',
+                                                      'v': '22/7'},
+                          {'t': 'dec', 'v': '0.3048'}])
+        uq = f'u{n}'
+        add({'a': 'term_unit', 'type': qn, 'sym': uq, 'items': [[qref, 1]],
+             'k': None, 'nums': [[off, 1]], 'spell': rng.randrange(4),
+             'expect': 'accept'})
+        others = [t for t in model.types_with_ref()
+                  if t != qn and model.types[t]['base']
+                  and not model.types[t]['catalogue']]
+        if others:
+            tn = rng.choice(others)
+            tu = rng.choice(model.types[tn]['units'])
+            e = rng.choice([1, -1])
+            items = [[qn, 1], [tn, e]]
+            dim = decl.dim_add(model.types[qn]['dim'],
+                               model.types[tn]['dim'], e)
+            if decl.dim_key(dim) not in model.dims:
+                n = model.fresh()
+                rn = f'D{n}'
+                add({'a': 'derived_type', 'name': rn, 'items': items,
+                     'style': rng.randrange(3), 'ref_sym': f'a{n}',
+                     'auto_ref': False, 'quantum': None,
+                     'expect': 'accept', 'dup_dim': False})
+                n = model.fresh()
+                w = f'v{n}'
+                if rng.random() < 0.5:
+                    add({'a': 'derive_unit', 'type': rn, 'units': [uq, tu],
+                         'sym': w, 'expect': 'accept'})
+                else:
+                    # the same scale reached independently of uq (so the
+                    # operation can be evaluated before uq is declared)
+                    tf = model.units[tu]['factor']
+                    k = decl.num_value(off) * tf ** e
+                    add({'a': 'scaled_unit', 'type': rn, 'sym': w,
+                         'parent': f'a{n - 1}',
+                         'k': {'t': 'frac', 'v': str(k)}, 'via': 'rmul',
+                         'expect': 'accept'})
+                # w = uq * tu**e  =>  w / tu**e is exactly uq
+                scenario_probes = [(rng.choice(['qq', 'qu', 'uq']) +
+                                    ('/' if e == 1 else '*'), w, tu)
+                                   for _ in range(2)]
     # ---- probes
     syms = list(model.uorder)
     user_syms = syms[n_given:] or syms
@@ -180,8 +238,45 @@ def gen(seed, run, tier='quick'):
     def defined(bvec, num):
         return not bvec or model.result_exists(bvec, num)
 
+    # directed probes: operations whose result normalizes *exactly* to a
+    # declared non-reference unit (so that "first registered wins" and the
+    # fall-back resolution both come into play, depending on the history)
+    directed = []
+    for act in decls:
+        its = None
+        if act['a'] == 'term_unit':
+            its = act['items']
+        elif act['a'] == 'derive_unit':
+            t = model.types[act['type']]
+            its = [[u, e] for u, (_, e) in zip(act['units'], t['items'])]
+        if not its or len(its) != 2 or abs(its[0][1]) != 1 or \
+                abs(its[1][1]) != 1:
+            continue
+        (a, ea), (b, eb) = its
+        if ea == -1:
+            (a, ea), (b, eb) = (b, eb), (a, ea)
+        if ea != 1:
+            continue
+        w = act['sym']
+        if eb == 1:     # w = a*b
+            directed += [('*', a, b), ('/', w, b), ('/', w, a)]
+        else:           # w = a/b
+            directed += [('/', a, b), ('*', w, b), ('/', a, w)]
+    for form, s1, s2 in scenario_probes:
+        if form.startswith('uq') and form[2] == '/':
+            form = 'qu/'
+        probes.append({'id': len(probes), 'form': form, 's1': s1, 's2': s2,
+                       'n': 2, 'a1': rng.choice(['3', '100', '7']),
+                       'a2': rng.choice(['2', '9', '1'])})
+    rng.shuffle(directed)
+    for opn, s1, s2 in directed[:rng.choice([0, 2, 4, 6])]:
+        form = rng.choice(['uu', 'qq', 'qu']) + opn
+        probes.append({'id': len(probes), 'form': form, 's1': s1, 's2': s2,
+                       'n': 2, 'a1': rng.choice(['3', '100', '7/2']),
+                       'a2': rng.choice(['2', '9', '5/4'])})
     tries = 0
-    n_probes = rng.randrange(3, (20 if deep else MAX_PROBES) + 1)
+    n_probes = len(probes) + rng.randrange(
+        3, (20 if deep else MAX_PROBES) + 1)
     while len(probes) < n_probes and tries < 300:
         tries += 1
         form = rng.choice(['uu*', 'uu*', 'uu/', 'uu/', 'u**', 'qq*', 'qq/',
